@@ -71,3 +71,82 @@ def callees_g(b):
         if rid is not None:
             out[path + "<" + ", ".join(c.get("gargs", [])) + ">"] += 1
     return out
+
+
+# ---------------------------------------------------------------------------- #[dispatch] tables
+TYPE2VARIANT = [(r"^i64$", "Int"), (r"^u64$", "UInt"), (r"^f64$", "Float"), (r"^bool$", "Bool"), (r"^std::string::String$", "String"),
+                (r"cel_bytes::CelBytes$", "Bytes"), (r"^std::vec::Vec<rscel::types::cel_value::CelValue>$", "List"),
+                (r"^std::collections::HashMap<", "Map"), (r"^chrono::DateTime<", "TimeStamp"), (r"^chrono::(TimeDelta|Duration)$", "Duration"),
+                (r"^rscel::types::cel_value::CelValue$", "*")]
+
+
+def variant_of_type(ty):
+    for rx, v in TYPE2VARIANT:
+        if re.search(rx, ty):
+            return v
+    return "?" + ty
+
+
+def dispatch_table(F, b):
+    """for a #[dispatch]-generated `dispatch` body: (tuple width, [(overload path, [variant required per tuple slot or '*'])])"""
+    import mirq
+    q = mirq.BodyQ(b)
+    cv = [a for a in F.adts.values() if a["path"] == "rscel::types::cel_value::CelValue" and a["pkg"] == "rscel"][0]
+    names = {int(v["discr"]): v["name"] for v in cv["variants"]}
+    # the matched tuple: aggregate of (this, a0, ..) whose fields are switched on
+    tup = None
+    width = 0
+    for i, s in b.stmts():
+        rv = s.get("rv", {})
+        if rv.get("k") == "agg" and rv.get("ak") == "tuple" and len(rv["ops"]) >= 1 and "p" not in s["place"]:
+            if b.local_ty(s["place"]["l"]).startswith("(rscel::types::cel_value::CelValue"):
+                tup, width = s["place"]["l"], len(rv["ops"])
+    if tup is None:
+        return None
+    # switches on discriminant(tup.k)
+    sw = {}
+    for i, s in b.stmts():
+        rv = s.get("rv", {})
+        if rv.get("k") == "discr" and rv["place"]["l"] == tup and rv["place"].get("p") and isinstance(rv["place"]["p"][0], dict) and "f" in rv["place"]["p"][0] and len(rv["place"]["p"]) == 1:
+            t = b.blocks[i]["term"]
+            if t and t["k"] == "switch" and lib.op_local(t["discr"]) == s["place"]["l"]:
+                sw[i] = (rv["place"]["p"][0]["f"], {int(c[0]): c[1] for c in t["cases"]}, t["otherwise"])
+    rows = []
+    mod = b.path.rsplit("::", 1)[0]
+    for i, t in b.calls():
+        rid, path, c = lib.callee_of(t)
+        if rid is None or not path.startswith(mod + "::") or path == b.path or "{closure" in path:
+            continue
+        slots = ["*"] * width
+        for sb, (k, cases, other) in sw.items():
+            if not b.dominates(sb, i):
+                continue
+            hit = [cvv for cvv, tgt in cases.items() if tgt == i or b.dominates(tgt, i)]
+            via_other = (other == i or b.dominates(other, i)) and other not in cases.values()
+            if len(hit) == 1 and not via_other:
+                slots[k] = names.get(hit[0], str(hit[0]))
+            elif hit:
+                slots[k] = "|".join(sorted(names.get(h, str(h)) for h in hit))
+        rows.append((path, slots))
+    return width, rows
+
+
+def expected_slots(F, callee_path, width):
+    bs = [x for x in F.by_path.get(callee_path, []) if x.pkg == "rscel"]
+    if len(bs) != 1:
+        return None
+    cb = bs[0]
+    n = cb.d["arg_count"]
+    tys = [cb.local_ty(i) for i in range(1, n + 1)]
+    has_this = n >= 1 and cb.dbg_name(1) == "this"
+    exp = []
+    if has_this:
+        exp.append(variant_of_type(tys[0]))
+        rest = tys[1:]
+    else:
+        exp.append("Null")
+        rest = tys
+    exp += [variant_of_type(t) for t in rest]
+    while len(exp) < width:
+        exp.append("Null")
+    return exp
